@@ -265,7 +265,10 @@ def run_rc(pid, tier, seed, replay=None):
                     with open(os.path.join(work, "w%d.log" % w), "rb") as fp:
                         sys.stderr.write(fp.read().decode(errors="replace")[-3000:])
         confirmed = []
+        cands = sorted(set(cands), key=lambda f: os.path.getsize(f) if os.path.exists(f) else 1 << 30)
         for c in cands:
+            if len(confirmed) >= 3:
+                break  # three confirmed reproductions are enough; the smallest files first
             r = [replay_cmd(c) for _ in range(3)]
             if all(x[0] in ("fail", "crash") for x in r):
                 size = len(open(c).read())
